@@ -1,5 +1,6 @@
 """Developer probe: run N indices of a machine and print a failure summary (not a registered check)."""
 import sys, os, json, collections, time
+os.environ.setdefault("KRROOD_VERIF", "1")
 sys.path.insert(0, os.environ.get("KRROOD_SRC", "/repo/src"))
 sys.path.insert(0, "/verif")
 import importlib
